@@ -38,6 +38,9 @@ pub struct Plan {
     pub duplicates: bool,
     pub sync_retry_ms: u64,
     pub mempool_sync_retry_ms: u64,
+    /// When the clients start submitting (the blocked-link classes also start right at boot, so that
+    /// batches are missed in the very first rounds, before the first commit).
+    pub start_ms: u64,
 }
 
 pub fn plan(class: &str, seed: u64, p: &Params) -> Plan {
@@ -79,7 +82,8 @@ pub fn plan(class: &str, seed: u64, p: &Params) -> Plan {
     } else {
         None
     };
-    Plan { n, timeout_ms, hi_ms: 40, clients, blocked, submit_ms: 4_000, settle_ms: if blocked.is_some() { 40_000 } else { 20_000 }, duplicates: rng.gen_bool(0.3), sync_retry_ms: if class == "s10b" { 1_000 } else { 5_000 }, mempool_sync_retry_ms: if class == "s10b" { 6_000 } else { 2_000 } }
+    let start_ms = if blocked.is_some() && rng.gen_bool(0.5) { 20 } else { 200 };
+    Plan { start_ms, n, timeout_ms, hi_ms: 40, clients, blocked, submit_ms: 4_000, settle_ms: if blocked.is_some() { 40_000 } else { 20_000 }, duplicates: rng.gen_bool(0.3), sync_retry_ms: if class == "s10b" { 1_000 } else { 5_000 }, mempool_sync_retry_ms: if class == "s10b" { 6_000 } else { 2_000 } }
 }
 
 pub struct Outcome {
@@ -118,7 +122,7 @@ pub fn execute(plan: &Plan, seed: u64) -> Outcome {
                 }));
             }
         }
-        sleep(Duration::from_millis(200)).await;
+        sleep(Duration::from_millis(plan.start_ms)).await;
         let submitted: std::sync::Arc<std::sync::Mutex<Vec<(usize, Vec<u8>)>>> = Default::default();
         let mut tasks = Vec::new();
         for (k, (node, count, gap, size)) in plan.clients.iter().cloned().enumerate() {
@@ -351,7 +355,7 @@ pub fn judge(plan: &Plan, out: &Outcome, r: &mut Report) {
         // Bounded lag: how long ago did the others first commit a round beyond the victim's final one?
         // A fetch costs at most the mempool's retry delay + its 1 s timer (first target silent) and the
         // consensus synchronizer's retry + its 5 s timer for the ancestors parked meanwhile.
-        let end_us = (200 + plan.submit_ms + plan.settle_ms) * 1000;
+        let end_us = (plan.start_ms + plan.submit_ms + plan.settle_ms) * 1000;
         let mut passed_at: Option<u64> = None;
         for ev in &out.log {
             if let Kind::App { node, block } = &ev.kind {
